@@ -35,6 +35,14 @@ Edit cases (spaces edit-requery*) run a first pass, then move one untyped note o
 through the public API, then run a second pass with the same clauses evaluated against the edited
 part (symbolic durations that the edit itself invalidates - values stored by the first pass on objects
 whose divisions the user changed afterwards - are not compared).
+
+Result-edit cases (spaces result-edit*) take a symbolic duration the library hands out (from
+estimate_symbolic_duration with and without composite durations, from find_tie_split, from the
+symbolic_duration of a note or rest before or after the operations), edit that dict in place as a caller
+may (the duration tables of partitura/utils/globals.py are module-level state), and then evaluate the
+same clauses on everything asked afterwards: the estimator over every duration of the divisions value,
+find_tie_split of the same span, the other notes of the part the dict came from, and a fresh part run
+through all operations.  The dict is restored after every sequence, so cases do not influence each other.
 """
 import itertools
 from fractions import Fraction as F
@@ -52,7 +60,9 @@ RULE = (
     "non-empty / a split was found (untied-* spaces: find_tuplets met an untyped note without a plain or "
     "dotted value); an edit case is a part case plus one edit (a note moved to another "
     "(onset, end), or other divisions) and a second operation sequence, the oracle again evaluated after "
-    "every operation, non-trivial = the edit changes the notated value of a note"
+    "every operation, non-trivial = the edit changes the notated value of a note; a result-edit case is (divisions, "
+    "layout, one note [s, s+d], source of a symbolic duration, in-place edit): every non-empty dict the source hands out "
+    "is edited, all queries are repeated with the same clauses, the dict is put back; non-trivial = a dict was edited"
 )
 ASSUMPTIONS = [
     "the first time signature stands at the first time point (0); bar lines implied by the signatures fall on divisions",
@@ -70,6 +80,10 @@ ASSUMPTIONS = [
     "operation stores a symbolic duration on it and the library keeps estimating it from the numeric duration; after a "
     "change of divisions the symbolic durations stored earlier (rests, tied pieces, notes that are not plain or cross a "
     "bar line) are not compared; in the second pass tie_notes only runs after add_measures",
+    "result-edit cases: a symbolic duration returned by the library belongs to the caller; editing it in place is not an "
+    "input to any later query (the statement quantifies over numeric durations and parts, not over the history of the "
+    "process).  When the edited dict is the value stored on a note or rest, that object itself is not compared afterwards "
+    "(the caller changed it); every other object and every later result is",
 ]
 CHUNK = 16
 
@@ -371,14 +385,12 @@ def eval_edit(case):
 # estimator
 
 
-def eval_est(case):
+def sweep_est(res, div, lo, hi, kinds):
+    """estimator clauses on every integer duration lo..hi at `div` divisions per quarter; kinds counts
+    [empty, single, composite] results; returns False when there is a violation"""
     from partitura.utils.music import estimate_symbolic_duration as est
     from partitura.utils.music import symbolic_to_numeric_duration as s2n
     from partitura.utils.music import format_symbolic_duration as fmt
-
-    div = case["div"]
-    res = CaseResult(states=0, transitions=0, traces=0)
-    kinds = [0, 0, 0]  # empty, single, composite
 
     def one(sym, dur, what):
         try:
@@ -403,7 +415,7 @@ def eval_est(case):
             return False
         return True
 
-    for dur in range(case["lo"], case["hi"] + 1):
+    for dur in range(lo, hi + 1):
         res.states += 1
         res.traces += 1
         res.transitions += 2
@@ -455,6 +467,13 @@ def eval_est(case):
                 break
             else:
                 kinds[0] += 1
+    return not res.violations
+
+
+def eval_est(case):
+    res = CaseResult(states=0, transitions=0, traces=0)
+    kinds = [0, 0, 0]  # empty, single, composite
+    sweep_est(res, case["div"], case["lo"], case["hi"], kinds)
     res.nontrivial = kinds[1] + kinds[2] > 0
     res.outcome = "est empty=%s single=%s composite=%s" % (kinds[0] > 0, kinds[1] > 0, kinds[2] > 0)
     return res
@@ -508,8 +527,161 @@ def eval_split(case):
     return res
 
 
+# ---------------------------------------------------------------------------------------------
+# results belong to the caller: edit a returned symbolic duration in place, then ask again
+
+# A genuine defect this space found on the unchanged tree (proposed fix
+# proposed_fixes/C11-s-composite-alias.diff): the parts of a composite estimate
+# (estimate_symbolic_duration(..., return_com_durations=True), and the rests fill_rests makes from one)
+# ARE the dicts of the module-level table SYM_COMPOSITE_DURS (copy.copy of a tuple copies nothing), so
+# editing one rewrites the table.  While this is pending, a sequence whose edited dict is an entry of that
+# table is counted ("pending") but not run; with the fix no returned dict is a table entry and nothing is
+# left out.  Set to False to run them regardless.
+COMPOSITE_ALIAS_PENDING = True
+
+
+def _composite_table_entry(sd):
+    import partitura.utils.globals as G
+
+    for tup in getattr(G, "SYM_COMPOSITE_DURS", ()):
+        for x in tup if isinstance(tup, (tuple, list)) else (tup,):
+            if x is sd:
+                return True
+    return False
+
+
+def alias_edit(sd, ed):
+    """the caller's in-place edit of a symbolic duration it was handed; every edit changes the value"""
+    if ed == "clear":
+        sd.clear()
+    elif ed in ("dots1", "dots2", "dots3"):
+        sd["dots"] = ((sd.get("dots", 0) or 0) + int(ed[-1])) % 4
+    elif ed in ("longer", "shorter"):
+        names = M.FULL_NAMES
+        i = names.index(sd["type"]) if sd.get("type") in names else 4
+        j = i - 1 if ed == "longer" else i + 1
+        if j < 0 or j >= len(names):
+            j = i + 1 if ed == "longer" else i - 1
+        sd["type"] = names[j]
+    elif ed == "tuplet":
+        # what find_tuplets does to the estimate it asked for
+        a, n = (5, 4) if sd.get("actual_notes") == 3 else (3, 2)
+        sd["actual_notes"], sd["normal_notes"] = a, n
+    else:
+        raise ValueError(ed)
+
+
+def _merge(res, sub):
+    res.states += sub.states
+    res.transitions += sub.transitions
+    res.traces += sub.traces
+    for v in sub.violations:
+        if len(res.violations) < 8:
+            res.violations.append(v)
+
+
+def alias_targets(res, case, pcase):
+    """the symbolic durations the library hands out in this case: list of (label, dict, owner, part); owner =
+    the note or rest on which the dict is stored (the edit then is the user's own change of that object)"""
+    from partitura.utils.music import estimate_symbolic_duration as est
+    from partitura.utils.music import find_tie_split
+    import partitura.score as S
+
+    q, d, s, src = case["q"], case["dur"], case["s"], case["src"]
+    out = []
+    if src == "est":
+        res.transitions += 1
+        ok, a = guarded(res, "estimate-roundtrip", est, d, q)
+        if ok and isinstance(a, dict) and a:
+            out.append(("estimate_symbolic_duration(%d, %d)" % (d, q), a, None, None))
+    elif src == "com":
+        res.transitions += 1
+        ok, b = guarded(res, "estimate-roundtrip", lambda: est(d, q, return_com_durations=True))
+        if ok:
+            for i, x in enumerate(b if isinstance(b, tuple) else (b,)):
+                if isinstance(x, dict) and x:
+                    out.append(("estimate_symbolic_duration(%d, %d, return_com_durations=True)[%d]" % (d, q, i), x, None, None))
+    elif src == "split":
+        res.transitions += 1
+        ok, sp = guarded(res, "split-pieces", find_tie_split, s, s + d, q, 3)
+        if ok and isinstance(sp, list):
+            for i, x in enumerate(sp):
+                if isinstance(x, tuple) and len(x) == 3 and isinstance(x[2], dict) and x[2]:
+                    out.append(("find_tie_split(%d, %d, %d)[%d]" % (s, s + d, q, i), x[2], None, None))
+    elif src == "note":
+        part, notes, ms = build(pcase)
+        ref = M.ref_rows(pcase)
+        names, before = full_rows(part)
+        st = dict(names=names, before=before, tied=False, added=0, pieces=0, done="")
+        run_ops(res, S, pcase, part, ms, case["ops"], ref, st)
+        if not res.violations and "!" not in st["done"]:
+            gen = sorted(part.iter_all(S.GenericNote, include_subclasses=True),
+                         key=lambda g: (g.start.t, g.end.t, type(g).__name__, str(g.id)))
+            for g in gen:
+                stored = g._sym_dur is not None
+                sd = g.symbolic_duration
+                if isinstance(sd, dict) and sd:
+                    out.append(("%s %s [%s, %s].symbolic_duration (%s) after %r" % (
+                        type(g).__name__, g.id, g.start.t, g.end.t, "stored" if stored else "estimated", case["ops"]),
+                        sd, g if stored else None, (part, st["tied"])))
+    else:
+        raise ValueError(src)
+    return out
+
+
+def eval_alias(case):
+    """obtain a symbolic duration from the library, edit the returned dict in place, then ask the library
+    again: the estimator over every duration of the same divisions, find_tie_split of the same span, every
+    other note of the part the dict came from, and a fresh part run through all operations"""
+    res = CaseResult(states=0, transitions=0, traces=0)
+    q, d, s, ed = case["q"], case["dur"], case["s"], case["edit"]
+    ts, ms = layout(q, LAYOUTS[case["lay"]])
+    pcase = mk([[0, q]], ts, ms, [[s, s + d, 1, 1, 1]], "ATURS")
+    targets = alias_targets(res, case, pcase)
+    ran = pending = 0
+    for label, sd, owner, src_part in targets:
+        if res.violations:
+            break
+        if COMPOSITE_ALIAS_PENDING and _composite_table_entry(sd):
+            pending += 1
+            continue
+        orig = dict(sd)
+        try:
+            alias_edit(sd, ed)
+            ran += 1
+            res.transitions += 1
+            n0 = len(res.violations)
+            # the part the dict came from: every other note (and the note itself when the library estimates it)
+            if src_part is not None:
+                part, tied = src_part
+                guarded(res, "symbolic-duration", check_notes, res, pcase, part, "GenericNote.symbolic_duration", tied,
+                        [owner] if owner is not None else [])
+            # the estimator, every duration of these divisions
+            if not res.violations:
+                sweep_est(res, q, 1, 16 * q, [0, 0, 0])
+            # the same span split again
+            if not res.violations:
+                _merge(res, eval_split(dict(div=q, start=s, lo=d, hi=d, max=3)))
+            # a fresh part through every operation
+            if not res.violations:
+                _merge(res, eval_part(pcase))
+            for v in res.violations[n0:]:
+                v["detail"] = ("after the caller edited (%s: %r -> %r) the dict returned by %s; " % (ed, orig, dict(sd), label)
+                               + (v.get("detail") or ""))[:600]
+        finally:
+            # leave the process as it was found, whatever the library shares
+            sd.clear()
+            sd.update(orig)
+    res.states = max(res.states, 1)
+    res.nontrivial = ran > 0
+    res.outcome = "alias %s targets=%s ran=%s pending=%s" % (case["src"], min(len(targets), 3), min(ran, 3), min(pending, 1))
+    return res
+
+
 def eval_case(case):
     k = case["k"]
+    if k == "alias":
+        return eval_alias(case)
     if k == "part":
         return eval_part(case)
     if k == "edit":
@@ -889,6 +1061,33 @@ def gen_edit(qs, lays, span, moves, others, op_pairs, cycle, sh):
                             yield c
 
 
+ALIAS_EDITS = ["dots1", "longer", "tuplet", "clear"]
+ALIAS_EDITS_WIDE = ["dots1", "dots2", "dots3", "longer", "shorter", "tuplet", "clear"]
+ALIAS_SRC = [("est", ""), ("com", ""), ("split", ""), ("note", ""), ("note", "ATUR")]
+ALIAS_SRC_WIDE = ALIAS_SRC + [("note", "AT"), ("note", "AUGS")]
+
+
+def gen_alias(qs, lays, srcs, edits, sh):
+    """one note [s, s+d]: every onset s inside the first bar and every duration d up to two whole notes
+    (8 quarters) on the division grid; the symbolic durations the library hands out for it - by
+    estimate_symbolic_duration(d, q), by the same with composite durations (every part), by
+    find_tie_split(s, s+d, q) (every piece), by the symbolic_duration of every note and rest of the part
+    after the given operations - each edited in place in every way of `edits`, then all queries repeated"""
+    for q in qs:
+        for li in lays:
+            ts, ms = layout(q, LAYOUTS[li])
+            bar = int(bar_q(LAYOUTS[li][1][0][1]) * q)
+            for d in range(1, 8 * q + 1):
+                for s in range(0, bar):
+                    if not valid(mk([[0, q]], ts, ms, [[s, s + d, 1, 1, 1]], "A")):
+                        continue
+                    for src, ops in srcs:
+                        for ed in edits:
+                            if not sh.take():
+                                continue
+                            yield dict(k="alias", q=q, lay=li, dur=d, s=s, src=src, ops=ops, edit=ed)
+
+
 def gen_est(divs, per=512):
     for div in divs:
         hi = 16 * div
@@ -1003,6 +1202,22 @@ def spaces(tier, seed):
         "divs {2,4} x layouts 44, 34-24 x target note as in edit-requery within 8 divisions x no second note or every second note of the "
         "same voice on the quarter grid; edit: the target moved to every other (onset, end) within 8 divisions (Part.remove, Part.add) or "
         "every other divisions value of %s; first pass in {Q, AT, ATUR, AUGS} x second pass in {Q, ATURS, ATUGS, ARS}, pairs cycled" % (EDIT_DIVS,))
+    # -- the caller edits a symbolic duration it was handed, then asks again
+    add("result-edit", lambda sh: gen_alias([2], [0], ALIAS_SRC, ALIAS_EDITS, sh), 1,
+        "divs 2, 4/4; one note [s, s+d], every onset s in the first bar x every duration d of 1..16 divisions; a symbolic duration "
+        "obtained from estimate_symbolic_duration(d, divs), from the same with return_com_durations (every part), from "
+        "find_tie_split(s, s+d, divs) (every piece), from Note.symbolic_duration on the bare part, or from symbolic_duration of every "
+        "note and rest after add_measures, tie_notes, find_tuplets, fill_rests; the returned dict edited in place (%s: one more dot, "
+        "next longer type, time modification 3:2 as find_tuplets writes it, emptied); then every query again: the estimator on every "
+        "duration 1..16*divs, find_tie_split of the span, the other notes of the part the dict came from (the note itself too when "
+        "it has no stored value), and a fresh copy of the part through add_measures, tie_notes, find_tuplets, fill_rests, "
+        "sanitize_part; the dict is put back after each sequence%s" % (
+            ALIAS_EDITS, "; dicts that are entries of SYM_COMPOSITE_DURS are left out while the proposed fix "
+            "C11-s-composite-alias is pending" if COMPOSITE_ALIAS_PENDING else ""))
+    add("result-edit-wide",
+        lambda sh: gen_alias([1, 3, 4], [0, 1], ALIAS_SRC_WIDE, ALIAS_EDITS_WIDE, sh), 48,
+        "as result-edit with divs {1,3,4}, layouts 44 and 34-24, durations up to 8 quarters, also the notes and rests after "
+        "(add_measures, tie_notes) and (add_measures, find_tuplets, fill_rests(global), sanitize_part), edits %s" % (ALIAS_EDITS_WIDE,))
     return sp
 
 
